@@ -10,7 +10,8 @@
    output: tag 1 GetPodResourceRequest, tag 2 GetPodResourceWithoutInitContainers,
            tag 3 upstream PodRequests (exact quantities), tag 4 NewResource of it,
            tag 5/6/7 api.NewTaskInfo(pod).Resreq / .InitResreq / .BestEffort,
-           tag 8/9/10 the same of SchedulerCache.NewTaskInfo(pod) (CSI volumes counted).
+           tag 8/9/10 the same of SchedulerCache.NewTaskInfo(pod) (CSI volumes counted),
+           tag 11 upstream PodRequests with the options of the pod being placed (status options off).
    A quantity in an OUTPUT list is (name, whole units, nano remainder). *)
 From stdpp Require Import gmap.
 From Coq Require Import ZArith List.
@@ -67,6 +68,10 @@ Definition dMeta : dec pod_meta :=
      -1 PVC bound to a non-CSI PV      11..19 unbound PVC, StorageClass provisioner d
      30 StorageClass of an ignored     21..29 unbound PVC, StorageClass parameter csi-driver-name d
         provisioner                    41..49 generic ephemeral volume, PV of driver d
+     61..69 PVC names a PV that does not exist, StorageClass provisioner d (fallback to the class)
+     70 PVC names a StorageClass that does not exist     71 PVC without PV and without class
+     50 the PVC is not in the informer (pendingPVCError)  51 ephemeral volume whose PVC the pod does not own
+   50 / 51 make getPodCSIVolumes fail: the whole lookup is an error ([vol_outcome] = None).
    A counted volume of driver d is charged to name 14 + d ("attachable-volumes-csi-drv<d>").
    This table is codec glue: the theorems quantify over every list of resolved names. *)
 Definition vol_key (kind : Z) : option positive :=
@@ -75,17 +80,23 @@ Definition vol_key (kind : Z) : option positive :=
     else if (11 <=? kind) && (kind <=? 19) then Some (kind - 10)
     else if (21 <=? kind) && (kind <=? 29) then Some (kind - 20)
     else if (41 <=? kind) && (kind <=? 49) then Some (kind - 40)
+    else if (61 <=? kind) && (kind <=? 69) then Some (kind - 60)
     else None in
   match drv with Some d => Some (Z.to_pos (14 + d)) | None => None end.
+
+Definition vol_outcome (vols : list Z) : option (list positive) :=
+  if existsb (fun k => (k =? 50) || (k =? 51)) vols then None else Some (omap vol_key vols).
 
 Definition dCase :=
   let* ippvs := dBool in let* plr := dBool in let* ippl := dBool in let* dra := dBool in
   let* m := dMeta in
   let* vols := dList dZ in
-  let* t := dNames in let* p := dPod in ret (ippvs, plr, ippl, dra, m, omap vol_key vols, t, p).
+  let* t := dNames in let* p := dPod in ret (ippvs, plr, ippl, dra, m, vol_outcome vols, t, p).
 
 Definition entry (sel : Z) (toks : list Z) : list Z :=
-  match sel with
+  (* selector 2 = selector 1; the harness additionally asserts that the case (a
+     refutation witness) still separates volcano from upstream on the real code *)
+  match (if sel =? 2 then 1 else sel) with
   | 1 => match run_dec dCase toks with
          | Some (ippvs, plr, ippl, dra, m, keys, t, p) =>
            let tr := tracked_of t in let ps := plsup_of t in
@@ -97,9 +108,10 @@ Definition entry (sel : Z) (toks : list Z) : list Z :=
            tag 5 ++ eRes (task_resreq tr ps ippvs plr ippl dra m p) ++
            tag 6 ++ eRes (task_init_resreq tr ps ippvs plr ippl dra m p) ++
            tag 7 ++ eBool (task_best_effort tr ps ippvs plr ippl dra m p) ++
-           tag 8 ++ eRes (cache_task_resreq tr ps ippvs plr ippl dra keys m p) ++
-           tag 9 ++ eRes (cache_task_init_resreq tr ps ippvs plr ippl dra keys m p) ++
-           tag 10 ++ eBool (cache_task_best_effort tr ps ippvs plr ippl dra keys m p)
+           tag 8 ++ eRes (cache_task_resreq_o tr ps ippvs plr ippl dra keys m p) ++
+           tag 9 ++ eRes (cache_task_resreq_o tr ps ippvs plr ippl dra keys m p) ++   (* InitResreq: the same object *)
+           tag 10 ++ eBool (cache_task_best_effort_o tr ps ippvs plr ippl dra keys m p) ++
+           tag 11 ++ eRl (k8s_pod_requests ps (opts_incoming plr dra) p)
          | None => bad_input end
   (* laws on the implementations' own results: must answer [1] *)
   | 101 => match run_dec (let* up := dRes in let* vc := dRes in let* rq := dRes in let* irq := dRes in
@@ -116,7 +128,7 @@ Definition entry (sel : Z) (toks : list Z) : list Z :=
            | None => bad_input end
   (* what the scheduler cache charges: SchedulerCache.NewTaskInfo *)
   | 104 => match run_dec (let* up := dRes in let* crq := dRes in let* cirq := dRes in let* be := dBool in
-                          let* vols := dList dZ in ret (up, crq, cirq, be, omap vol_key vols)) toks with
+                          let* vols := dList dZ in ret (up, crq, cirq, be, default [] (vol_outcome vols))) toks with
            | Some (up, crq, cirq, be, keys) => eBool (law_cache_reservation up crq cirq be keys)
            | None => bad_input end
   (* the harness's classification "inside the theorem's hypothesis" must be the
@@ -124,6 +136,16 @@ Definition entry (sel : Z) (toks : list Z) : list Z :=
   | 105 => match run_dec (let* claimed := dBool in let* c := dCase in ret (claimed, c)) toks with
            | Some (claimed, (ippvs, plr, ippl, dra, m, keys, t, p)) =>
              eBool (Bool.eqb claimed (bool_decide (pod_ok (tracked_of t) (plsup_of t) p)))
+           | None => bad_input end
+  (* the pod being placed: for a pod inside pod_ok that carries no resize
+     information, InitResreq is NewResource of upstream's incoming-pod request
+     (fit.go computePodResourceRequest options) + pods (+ volume counts).  The
+     guard is the extracted decision of the theorem's hypotheses. *)
+  | 106 => match run_dec (let* c := dCase in let* upi := dRes in let* cirq := dRes in ret (c, upi, cirq)) toks with
+           | Some ((ippvs, plr, ippl, dra, m, keys, t, p), upi, cirq) =>
+             if bool_decide (pod_ok (tracked_of t) (plsup_of t) p) && bool_decide (no_resize_info p)
+             then eBool (bool_decide (cirq = cache_add_csi (add_scalar upi pods_name 1) (default [] keys)))
+             else [1]
            | None => bad_input end
   | _ => bad_input
   end.
